@@ -66,6 +66,12 @@ with concurrent.futures.ThreadPoolExecutor(max_workers=3) as ex:
         for f in mine:
             v.report(ks.b1_signature(f), {"instance": cfg, "path": f.get("path"), "cmd": f["cmd"], "got": f["got"], "expected": f["expected"], "state_diff": f.get("state_diff")},
                      what="%s: after %s, %s -> %s %s" % (cfg, f.get("path"), f["cmd"], ks.show_reply(f["got"]), f.get("state_diff") or ""))
+# blocking pops over several keys (the multi-key command that waits): they answer and leave every named key usable
+import expwin
+bp_probs, bp_stats = expwin.blocking_pop_hygiene()
+cov["blocking_pop_hygiene"] = bp_stats
+for pr in bp_probs:
+    v.report({"branch": "blockingpop", "kind": pr["kind"], "detail": (pr["argv"] or ["-"])[0].lower()}, pr, what=pr["detail"])
 try:
     import locks
     locks.run(v, cov, tier, seed)
